@@ -280,3 +280,11 @@ def o_outputs_map(O):
 def no_state_outside(O):
     from . import C15
     C15.no_shared_state_core(O, rep())
+
+
+@obligation("C04/readings-stored-as-returned", desc="handle_io: what the output-reading call returned reaches set_outputs and the "
+            "extraction as it is - the very vector, nothing masked, filtered or re-built in between - so expressions see the "
+            "values the driver returned")
+def readings_stored_as_returned(O):
+    from . import C13
+    C13.answer_passed_unchanged(dri.WithRep(O, rep()))
